@@ -51,6 +51,7 @@ type Execution struct {
 	Problems []string // oracle complaints recorded while running (core.Problem)
 	Pruned   bool     // cut short: reached a state already expanded (Merge)
 	Log      []string
+	log      []logEntry
 	VTime    int64 // final virtual time (ns)
 	Threads  int
 }
@@ -306,11 +307,13 @@ func Explore(opts Options, body func(), check func(x *Execution) (outcome string
 			problems = append(append([]string(nil), x.Problems...), problems...)
 			st.Outcomes[outcome]++
 		}
-		if !x.Pruned && (st.SampleLog == nil || (len(x.Log) > len(st.SampleLog) && st.Executions < 50)) {
+		if !x.Pruned && (st.SampleLog == nil || (len(x.log) > len(st.SampleLog) && st.Executions < 50)) {
+			x.RenderLog()
 			st.SampleLog = append([]string(nil), x.Log...)
 			st.SampleChoices = append([]int(nil), x.Choices...)
 		}
 		if len(problems) > 0 && len(st.Violations) < 20 {
+			x.RenderLog()
 			st.Violations = append(st.Violations, Violation{Msgs: problems, Choices: append([]int(nil), x.Choices...), Cost: x.Cost, Log: append([]string(nil), x.Log...)})
 		}
 		if opts.Once {
